@@ -126,7 +126,36 @@ def two_files_case(has_old, a_vals, b_vals, c0):
     return ok
 
 
-GLB = {"two_files_case": two_files_case, "sites_case": sites_case, "reeval_case": reeval_case, "__name__": "harness.c14"}
+def growing_member_case(has_old, other_site, n0, n1, n2, c0):
+    """a mutable object is recorded at an `in` site several times while it grows (and is also compared at another site):
+    every recorded member keeps the value it had when it was compared"""
+    world.reset({"new": [n0, n1, n2], "c0": c0, "res": []})
+    old = "[[c0]]" if has_old else ""
+    t = (HEAD + "def helper(v):\n    res.append(v == snapshot())\n\n\ndef test_a():\n    buf = []\n    for x in new:\n        buf.append(x)\n"
+         f"        res.append(buf in snapshot({old}))\n" + ("        helper(list(buf))\n" if other_site else "") + "    buf.append(99)\n")
+    r = world.core_session(t, {"create", "fix"})
+    vals = world.snapshot_values(r.text)
+    got = vals[1] if other_site is False else vals[1]
+    # snapshot calls in file order: helper's == site first, then the in site
+    site_in = vals[-1]
+    PathLog.record(f"grow{has_old}{other_site}" + str(world.snapshot_arg_sources(r.text)), nontrivial=True, sample={"in_site_had_value": bool(has_old), "other_site": bool(other_site), "written": world.snapshot_arg_sources(r.text)})
+    if site_in is world.MISSING:
+        return False
+    want = [[n0], [n0, n1], [n0, n1, n2]]
+    for w in want:
+        found = False
+        for g in site_in:
+            if g == w:
+                found = True
+        if not found:
+            return False
+    for g in site_in:
+        if len(g) > 3:
+            return False
+    return True
+
+
+GLB = {"growing_member_case": growing_member_case, "two_files_case": two_files_case, "sites_case": sites_case, "reeval_case": reeval_case, "__name__": "harness.c14"}
 
 
 def conditions(tier):
@@ -159,6 +188,12 @@ def conditions(tier):
         params = [(n, "int") for n in ["a0", "a1", "a2", "b0", "b1", "b2", "c0"]]
         conds.append(Cond(name, mkfn(name, params, f"return two_files_case({has_old}, [a0, a1, a2], [b0, b1, b2], c0)", GLB), timeout=900, group="two-files",
                           bounds="two test files with byte-identical text (equal code objects) and different symbolic observations, real plugin hooks, create+fix"))
+    for has_old in (False, True):
+        for other in (False, True):
+            name = f"growing_member_{'old' if has_old else 'new'}{'_other_site' if other else ''}"
+            fn = mkfn(name, [("n0", "int"), ("n1", "int"), ("n2", "int"), ("c0", "int")], f"return growing_member_case({has_old}, {other}, n0, n1, n2, c0)", GLB)
+            conds.append(Cond(name, fn, timeout=600, group="growing-member",
+                              bounds=f"one list that grows by a symbolic int per loop pass is tested with `in` at one call site three times ({'pre-filled' if has_old else 'empty'} snapshot){', a copy also compared at an == site in a helper' if other else ''}, mutated again afterwards; create+fix"))
     tw = mkfn("sites_twin", [("k0", "int"), ("k1", "int"), ("x0", "int"), ("x1", "int")], "return sites_case('one_line', False, [k0, k1], [x0, x1], [], {'create'})", GLB, pre=["0 <= k0 <= 2 and 0 <= k1 <= 2"], post="not _")
     conds.append(Cond("sites_twin", tw, timeout=60, twin=True))
     return conds
